@@ -41,6 +41,20 @@ CHECKS = {
         "design_ref": "DESIGN.md section 4, C13",
         "note": "trusted: CrossHair's value models, z3, oracles/typing_conf.py (skips pairs on which the statement is silent: bool offered to float, Literal membership across types)",
     },
+    "C07": {
+        "engine": "CrossHair (engine X) + symx (engine P)",
+        "technique": "CrossHair symbolic execution (z3) of the xpath parsing/matching kernels (index digits, element matching, anywhere assembly) over symbolic digits, indices, field names and element lists; symx exploration of grammar-derived xpaths x trees against a reference evaluator",
+        "text": "Index parsing is confirmed for all digit lists up to 4 digits, element matching for all indices / field names (unbounded ints, names <= 3 chars), the `anywhere` assembly for all element lists up to 5; for every generated xpath (1-3 | 1-4 steps) on 13 trees findall == {n | match} == reference, each node once, find == first. The compiled half has only selectors: its all-paths verdict equals bounded enumeration (DESIGN.md section 6).",
+        "design_ref": "DESIGN.md section 4, C07",
+        "note": "trusted: CrossHair, z3, symx, oracles/xpath_ref.py (appendix A.3); lark runs concretely on each generated text",
+    },
+    "C20": {
+        "engine": "symx (engine P) + CrossHair (engine X)",
+        "technique": "bounded symbolic execution of legacy dfs/bfs/gather with lazy symbolic prune/filter bits per node and lazy skip_self/bottom_up/exact_type; legacy xpath match against the reference evaluator along the parent chain; CrossHair on the legacy index parsing and anywhere assembly",
+        "text": "For every legacy tree within the bound and every prune/filter predicate (one symbolic boolean per node), legacy traversals equal the reference streams including the start-node rule; legacy ASTXpath.match equals the documented semantics for every generated xpath on 8 attached trees (lists longer than 10 included); calculate_xpath spells every chain; a pool of malformed texts raises only the definition error.",
+        "design_ref": "DESIGN.md section 4, C20",
+        "note": "trusted: symx, CrossHair, z3, reference traversal and xpath oracles; bounds in evidence",
+    },
 }
 NOT_APPLICABLE = {
     "C11": "input is a class definition consumed by typing/abc introspection (get_origin/get_args/get_type_hints/issubclass): no engine can keep an annotation symbolic, every path would be one concrete class definition, i.e. enumeration of concrete runs rather than a solver verdict (DESIGN.md section 5)",
